@@ -277,12 +277,20 @@ def attempt (k : Kind) (p : ReqPath) : Attempt :=
 
 /-! ## Call histories -/
 
-inductive Op | initialize | tools | toolsRetry | notify | roots | rootsUnknown | terminate
+/-- Operations of a call history. `initFailSent`: an `Initialize` whose first request reaches the server and is
+    answered with a failure (503, or 200 with a useless content type); `initFailRefused`: an `Initialize` whose first
+    request the before-request function refuses. Both leave the client un-initialized, to be initialized again. -/
+inductive Op | initialize | initFailSent | initFailRefused | tools | toolsRetry | notify | roots | rootsUnknown | terminate
   deriving DecidableEq, Repr
 
 structure St where
   initialized : Bool := false
   issued : Bool := false
+  /-- Streamable: an `initialize` answer without a session id (any failed answer included) switches the transport to
+      "stateless, no listening stream" for good (`send`: `t.enableGetSSE = false`, never re-enabled). -/
+  noStream : Bool := false
+  /-- the context value of the successful handshake -/
+  hsVal : Option Nat := none
   deriving DecidableEq, Repr
 
 def pathFor (ps : List ReqPath) (c : Client) (k : Kind) : Option ReqPath :=
@@ -290,15 +298,35 @@ def pathFor (ps : List ReqPath) (c : Client) (k : Kind) : Option ReqPath :=
   | none => none
   | some e => ps.find? (fun p => p.client == c && p.fn == e.fn)
 
-/-- The request kinds one operation emits (with the `issued` flag at the time each is built) and the next state.
+/-- The first request of a handshake. -/
+def firstKind : Client → Kind
+  | .sse => .connect
+  | _ => .request
+
+def initOk (c : Client) (st : St) (v : Nat) : List (Kind × Bool) × St :=
+  match c with
+  | .streamable =>
+    ((.request, st.issued) :: (.notification, true) :: (if st.noStream then [] else [(.stream, true)]),
+     { st with initialized := true, issued := true, hsVal := some v })
+  | .sse => ([(.connect, false), (.request, false), (.notification, false)],
+     { st with initialized := true, issued := false, hsVal := some v })
+  | .other => ([], st)
+
+/-- The request kinds one operation emits (with the `issued` flag at the time each is built) and the next state;
+    `v` is the context value the caller passes to the operation.
     `toolsRetry`: the server answers the first attempt with 503 and the client (retry configured) repeats it. -/
-def emits (cfg : Cfg) (ps : List ReqPath) (c : Client) (st : St) : Op → List (Kind × Bool) × St
-  | .initialize =>
+def emits (cfg : Cfg) (ps : List ReqPath) (c : Client) (st : St) (v : Nat) : Op → List (Kind × Bool) × St
+  | .initialize => if st.initialized then ([], st) else initOk c st v
+  | .initFailSent =>
     if st.initialized then ([], st) else
     match c with
-    | .streamable => ([(.request, st.issued), (.notification, true), (.stream, true)], { initialized := true, issued := true })
-    | .sse => ([(.connect, false), (.request, false), (.notification, false)], { initialized := true, issued := false })
+    | .streamable => ([(.request, st.issued)], { st with noStream := true })
+    | .sse => ([(.connect, false)], st)
     | .other => ([], st)
+  | .initFailRefused =>
+    if st.initialized then ([], st) else
+    -- refused = nothing sent and the handshake fails, provided the first request's builder lets the function block it
+    if cfg.before && ((pathFor ps c (firstKind c)).map blocks).getD false then ([], st) else initOk c st v
   | .tools => if st.initialized then ([(.request, st.issued)], st) else ([], st)
   | .toolsRetry => if st.initialized then ([(.request, st.issued), (.request, st.issued)], st) else ([], st)
   | .notify =>
@@ -306,7 +334,9 @@ def emits (cfg : Cfg) (ps : List ReqPath) (c : Client) (st : St) : Op → List (
     match c with
     | .other => ([], st)
     | _ => if st.initialized then ([(.notification, st.issued)], st) else ([], st)
-  | .roots | .rootsUnknown => if st.initialized then ([(.answer, st.issued)], st) else ([], st)
+  | .roots | .rootsUnknown =>
+    -- answers need the stream the server's request arrives on
+    if st.initialized && !(c == .streamable && st.noStream) then ([(.answer, st.issued)], st) else ([], st)
   | .terminate =>
     match c with
     | .streamable =>
@@ -319,11 +349,24 @@ def emits (cfg : Cfg) (ps : List ReqPath) (c : Client) (st : St) : Op → List (
       else ([], st)
     | _ => ([], st)
 
-/-- Observations predicted for a whole call history (`none` = a kind without a known builder). -/
-def trace (cfg : Cfg) (ps : List ReqPath) (c : Client) : St → List Op → List (Option (Kind × Obs))
+/-- The context value the before-request function is predicted to see for a request of kind `k` observed as `o`,
+    emitted by an operation called with value `v` that leaves the state `st'`: the caller's value; for the listening
+    stream and the answers the value of the successful handshake; for the legacy connect the value of the operation
+    that makes it; nothing when the function is not asked or is handed a background context. -/
+def seenOf (st' : St) (v : Nat) (k : Kind) (o : Obs) : Option Nat :=
+  match o.ctx with
+  | .caller => some v
+  | .handshake => if k == .connect then some v else st'.hsVal
+  | _ => none
+
+/-- Observations predicted for a whole call history of (operation, context value) pairs
+    (`none` = a kind without a known builder). -/
+def trace (cfg : Cfg) (ps : List ReqPath) (c : Client) : St → List (Op × Nat) → List (Option (Kind × Obs × Option Nat))
   | _, [] => []
-  | st, op :: rest =>
-    let (ks, st') := emits cfg ps c st op
-    ks.map (fun (k, issued) => (pathFor ps c k).map (fun p => (k, requestOf cfg issued k p))) ++ trace cfg ps c st' rest
+  | st, (op, v) :: rest =>
+    let (ks, st') := emits cfg ps c st v op
+    ks.map (fun (k, issued) => (pathFor ps c k).map (fun p =>
+      let o := requestOf cfg issued k p
+      (k, o, seenOf st' v k o))) ++ trace cfg ps c st' rest
 
 end Mcp.ReqPaths
